@@ -352,6 +352,162 @@ theorem posixSplit_join (p f : List Char) (hf : '/' ∉ f) (hfne : f ≠ []) (hd
       ⟨by simp, hnrep⟩
     rw [if_pos this, rstripSlash_snoc d hlast]
 
+/-! ### shape of the peeled suffixes; names across different shard counts -/
+
+theorem rfindSucc_get (c : Char) (l : List Char) (n : Nat) (h : rfindSucc c l = n + 1) :
+    l[n]? = some c := by
+  induction l generalizing n with
+  | nil => simp [rfindSucc] at h
+  | cons x xs ih =>
+    simp only [rfindSucc] at h
+    by_cases hr : rfindSucc c xs > 0
+    · simp only [hr, if_true] at h
+      obtain ⟨m, hm⟩ : ∃ m, rfindSucc c xs = m + 1 := ⟨rfindSucc c xs - 1, by omega⟩
+      have : n = m + 1 := by omega
+      subst this
+      simpa using ih m hm
+    · simp only [hr, if_false] at h
+      by_cases hx : x = c
+      · simp only [hx, if_true] at h
+        have : n = 0 := by omega
+        subst this; simp [hx]
+      · simp [hx] at h
+
+theorem splitext_suffix_head (p : List Char) (h : (splitext p).2 ≠ []) :
+    (splitext p).2.head? = some '.' := by
+  revert h
+  unfold splitext
+  simp only []
+  split
+  · rename_i hgt
+    split
+    · intro _
+      obtain ⟨n, hn⟩ : ∃ n, rfindSucc '.' p = n + 1 := ⟨rfindSucc '.' p - 1, by omega⟩
+      simp only [hn, Nat.add_sub_cancel]
+      rw [List.head?_drop]
+      exact rfindSucc_get '.' p n hn
+    · intro h; exact absurd rfl h
+  · intro h; exact absurd rfl h
+
+theorem splitext_fst_length (p : List Char) (h : (splitext p).2 ≠ []) :
+    (splitext p).1.length < p.length := by
+  have := congrArg List.length (splitext_append p)
+  simp only [List.length_append] at this
+  have : 0 < (splitext p).2.length := List.length_pos_iff.mpr h
+  omega
+
+/-- what the suffix-peeling loop guarantees about its result `r`, started with `acc` -/
+def PeelSpec (count : Option Nat) (acc : List (List Char)) (r : List Char × List (List Char)) : Prop :=
+  (∃ new, r.2 = acc ++ new ∧ ∀ s ∈ new, s.head? = some '.' ∧ isExtensionSuffix s = true) ∧
+  (∀ c, count = some c → r.2.length ≤ max acc.length c) ∧
+  ((∀ c, count = some c → r.2.length < c) →
+    (splitext r.1).2 = [] ∨ isExtensionSuffix (splitext r.1).2 = false)
+
+theorem peel_body (fuel : Nat) (count : Option Nat) (name : List Char) (acc : List (List Char))
+    (ih : ∀ name' acc', name'.length < fuel → PeelSpec count acc' (peelSuffixes fuel count name' acc'))
+    (hf : name.length < fuel + 1) (hroom : ∀ c, count = some c → acc.length < c) :
+    PeelSpec count acc
+      (if (splitext name).2 = [] ∨ ¬ isExtensionSuffix (splitext name).2 = true then (name, acc)
+       else peelSuffixes fuel count (splitext name).1 (acc ++ [(splitext name).2])) := by
+  by_cases hstop : (splitext name).2 = [] ∨ ¬ isExtensionSuffix (splitext name).2 = true
+  · rw [if_pos hstop]
+    refine ⟨⟨[], by simp, by simp⟩, fun c _ => by simp; omega, fun _ => ?_⟩
+    rcases hstop with h | h
+    · exact Or.inl h
+    · exact Or.inr (by simpa using h)
+  · rw [if_neg hstop]
+    have hne : (splitext name).2 ≠ [] := fun h => hstop (Or.inl h)
+    have hext : isExtensionSuffix (splitext name).2 = true := by
+      by_cases h : isExtensionSuffix (splitext name).2 = true
+      · exact h
+      · exact absurd (Or.inr h) hstop
+    have hlt := splitext_fst_length name hne
+    obtain ⟨⟨new, hnew, hall⟩, hbound, hmax⟩ :=
+      ih (splitext name).1 (acc ++ [(splitext name).2]) (by omega)
+    refine ⟨⟨(splitext name).2 :: new, by rw [hnew]; simp, ?_⟩, ?_, hmax⟩
+    · intro s hs
+      rcases List.mem_cons.mp hs with rfl | hs
+      · exact ⟨splitext_suffix_head name hne, hext⟩
+      · exact hall s hs
+    · intro c hc
+      have h1 := hbound c hc
+      have h2 := hroom c hc
+      simp only [List.length_append, List.length_singleton] at h1
+      omega
+
+theorem peelSuffixes_spec (fuel : Nat) (count : Option Nat) (name : List Char)
+    (acc : List (List Char)) (hf : name.length < fuel) :
+    PeelSpec count acc (peelSuffixes fuel count name acc) := by
+  induction fuel generalizing name acc with
+  | zero => omega
+  | succ fuel ih =>
+    cases count with
+    | none =>
+      simp only [peelSuffixes, if_true]
+      exact peel_body fuel none name acc ih hf (by simp)
+    | some c =>
+      by_cases hc : acc.length < c
+      · simp only [peelSuffixes, hc, decide_true, if_true]
+        exact peel_body fuel (some c) name acc ih hf (by intro c' h; cases h; exact hc)
+      · simp only [peelSuffixes, hc, decide_false, Bool.false_eq_true, if_false]
+        refine ⟨⟨[], by simp, by simp⟩, fun c' _ => by simp; omega, fun h => ?_⟩
+        exact absurd (h c rfl) hc
+
+theorem pad5_chars (n : Nat) : ∀ c ∈ pad5 n, ∃ d, d < 10 ∧ c = Char.ofNat (48 + d) := by
+  intro c h
+  simp only [pad5, List.mem_append, List.mem_replicate] at h
+  rcases h with ⟨_, h⟩ | h
+  · exact ⟨0, by decide, h⟩
+  · rcases digitsAux_mem _ _ _ _ h with h | h
+    · simp at h
+    · exact h
+
+theorem digit_ne_dash : ∀ d, d < 10 → Char.ofNat (48 + d) ≠ '-' := by decide
+
+theorem dash_not_mem_pad5 (n : Nat) : '-' ∉ pad5 n := by
+  intro h
+  obtain ⟨d, hd, e⟩ := pad5_chars n _ h
+  exact digit_ne_dash d hd e.symm
+
+/-- two strings that agree up to their first `c` agree on both sides of it -/
+theorem split_at_first (c : Char) (a b x y : List Char) (ha : c ∉ a) (hb : c ∉ b)
+    (h : a ++ c :: x = b ++ c :: y) : a = b ∧ x = y := by
+  induction a generalizing b with
+  | nil =>
+    cases b with
+    | nil => simpa using h
+    | cons b0 bs =>
+      simp only [List.nil_append, List.cons_append, List.cons.injEq] at h
+      exact absurd (by simp [h.1]) hb
+  | cons a0 as ih =>
+    cases b with
+    | nil =>
+      simp only [List.nil_append, List.cons_append, List.cons.injEq] at h
+      exact absurd (by simp [h.1]) ha
+    | cons b0 bs =>
+      simp only [List.cons_append, List.cons.injEq] at h
+      have := ih bs (fun m => ha (List.mem_cons_of_mem _ m)) (fun m => hb (List.mem_cons_of_mem _ m)) h.2
+      exact ⟨by rw [h.1, this.1], this.2⟩
+
+/-- the file-name part determines both counters -/
+theorem shardBasename_injective2 (filename : List Char) (sc : Option Nat) {i j t t' : Nat}
+    (h : shardBasename filename i t sc = shardBasename filename j t' sc) : i = j ∧ t = t' := by
+  unfold shardBasename at h
+  simp only [] at h
+  simp only [List.append_assoc] at h
+  have h1 := List.append_cancel_left h
+  simp only [List.cons_append, List.cons.injEq, true_and] at h1
+  -- pad5 i ++ '-' :: 'o' :: 'f' :: '-' :: (pad5 t ++ ext)
+  have h2 : pad5 i ++ '-' :: ("of-".toList ++ (pad5 t ++
+        (peelSuffixes (filename.length + 1) sc filename []).2.reverse.flatten)) =
+      pad5 j ++ '-' :: ("of-".toList ++ (pad5 t' ++
+        (peelSuffixes (filename.length + 1) sc filename []).2.reverse.flatten)) := by
+    simpa using h1
+  obtain ⟨hij, hrest⟩ := split_at_first '-' _ _ _ _ (dash_not_mem_pad5 i) (dash_not_mem_pad5 j) h2
+  have h3 := List.append_cancel_left hrest
+  have h4 := List.append_cancel_right h3
+  exact ⟨pad5_injective hij, pad5_injective h4⟩
+
 /-! ### zip-assignment -/
 
 theorem assignZip_length (st : List NewConst) (is : List Nat) (ns : List NewConst) :
@@ -495,6 +651,44 @@ theorem splitBy_sorted_fst (pe pm : Init → Bool) (k : Nat) (vs : List Init) :
 theorem splitBy_sorted_snd (pe pm : Init → Bool) (k : Nat) (vs : List Init) :
     (splitBy pe pm k vs).2.Pairwise (· < ·) := by
   rw [splitBy_swap]; exact splitBy_sorted_fst pm pe k vs
+
+/-- the position of initializer `j` in the first list is the number of selected initializers
+    before it -/
+theorem splitBy_index (pe pm : Init → Bool) (b : Nat) (vs : List Init) (j : Nat)
+    (hj : j < vs.length) (hp : pe vs[j] = true) :
+    (splitBy pe pm b vs).1[(vs.take j).countP pe]? = some (b + j) := by
+  induction vs generalizing b j with
+  | nil => simp at hj
+  | cons v rest ih =>
+    cases j with
+    | zero =>
+      have : pe v = true := by simpa using hp
+      simp [splitBy, this]
+    | succ j =>
+      have hj' : j < rest.length := by simpa using hj
+      have hp' : pe rest[j] = true := by simpa using hp
+      have := ih (b + 1) j hj' hp'
+      simp only [splitBy, List.take_succ_cons, List.countP_cons]
+      by_cases hv : pe v = true
+      · simp only [hv, if_true, List.getElem?_cons_succ]
+        rw [this]; congr 1; omega
+      · simp only [hv, Bool.false_eq_true, if_false, Nat.add_zero]
+        rw [this]; congr 1; omega
+
+/-- the selected initializers, in order, are the filter of the list -/
+theorem splitBy_map_filter (pe pm : Init → Bool) (pre vs : List Init) :
+    (splitBy pe pm pre.length vs).1.map (fun i => (pre ++ vs).getD i default) = vs.filter pe := by
+  induction vs generalizing pre with
+  | nil => simp [splitBy]
+  | cons v rest ih =>
+    have h := ih (pre ++ [v])
+    simp only [List.length_append, List.length_singleton, List.append_assoc, List.singleton_append] at h
+    simp only [splitBy, List.filter_cons]
+    by_cases hv : pe v = true
+    · simp only [hv, if_true, List.map_cons, h]
+      congr 1
+      simp [List.getD_eq_getElem?_getD]
+    · simp only [hv, Bool.false_eq_true, if_false, h]
 
 theorem nodup_of_sorted {l : List Nat} (h : l.Pairwise (· < ·)) : l.Nodup :=
   h.imp (by intro a b hab; omega)
